@@ -294,8 +294,7 @@ def exec_stmt(ctx, fr, s):
                 saved = fr.vars[nar[0]]
                 fr.vars[nar[0]] = nar[1]
                 exec_block(ctx, fr, s.body)
-                if fr.vars.get(nar[0]) is nar[1]:
-                    fr.vars[nar[0]] = saved
+                _restore_narrowed(fr, nar[0], nar[1], saved)
             else:
                 exec_block(ctx, fr, s.body)
         if cv is not True and s.orelse:
@@ -304,8 +303,7 @@ def exec_stmt(ctx, fr, s):
                 saved = fr.vars[nar[0]]
                 fr.vars[nar[0]] = nar[2]
                 exec_block(ctx, fr, s.orelse)
-                if fr.vars.get(nar[0]) is nar[2]:
-                    fr.vars[nar[0]] = saved
+                _restore_narrowed(fr, nar[0], nar[2], saved)
             else:
                 exec_block(ctx, fr, s.orelse)
         fr.g = g0
@@ -373,6 +371,16 @@ def exec_stmt(ctx, fr, s):
     else:
         raise Unsupported("statement %s at %s:%s" % (t.__name__, getattr(fr.fn, "__qualname__", "?"),
                                                      getattr(s, "lineno", "?")))
+
+
+def _restore_narrowed(fr, name, narrowed, saved):
+    cur = fr.vars.get(name)
+    if cur is narrowed:
+        fr.vars[name] = saved
+    elif isinstance(cur, Ref) and isinstance(saved, Ref):
+        # re-assigned inside the branch (merged with the narrowed value on the other paths): the
+        # static candidate set must cover what the variable held outside the branch as well
+        fr.vars[name] = Ref(cur.t, cur.cands | saved.cands)
 
 
 def isinstance_narrowing(ctx, fr, test):
